@@ -770,6 +770,32 @@ impl<Key, Value> CacheD<Key, Value>
         }
     }
 
+    /// A snapshot that never waits for a lock held across schedule points: the total is `None` while `weight_used` is
+    /// locked, a time-to-live shard is `None` while the sweeper works on it.
+    pub fn verif_try_snapshot(&self) -> (VerifSnapshot<Key, Value>, Option<Weight>, Vec<Option<Vec<(KeyId, std::time::SystemTime)>>>) {
+        let total = self.admission_policy.verif_try_weight_used();
+        let shards = self.ttl_ticker.verif_try_shards();
+        let stats_counter = self.store.stats_counter();
+        let stats = vec![
+            stats_counter.hits(), stats_counter.misses(), stats_counter.keys_added(), stats_counter.keys_deleted(),
+            stats_counter.keys_updated(), stats_counter.keys_rejected(), stats_counter.weight_added(), stats_counter.weight_removed(),
+            stats_counter.access_added(), stats_counter.access_dropped(),
+        ];
+        let snapshot = VerifSnapshot {
+            store: self.store.verif_entries(),
+            key_weights: self.admission_policy.verif_key_weights(),
+            weight_used: total.unwrap_or(0),
+            ttl_shards: shards.iter().map(|shard| shard.clone().unwrap_or_default()).collect(),
+            command_queue_len: self.command_executor.verif_queue_len(),
+            buffer_queue_len: self.admission_policy.verif_buffer_queue_len(),
+            pool_buffers: self.pool.verif_buffers(),
+            sketch: self.admission_policy.verif_sketch(),
+            stats,
+            is_shutting_down: self.is_shutting_down.load(Acquire),
+        };
+        (snapshot, total, shards)
+    }
+
     pub fn verif_command_queue_len(&self) -> usize { self.command_executor.verif_queue_len() }
 
     pub fn verif_buffer_queue_len(&self) -> usize { self.admission_policy.verif_buffer_queue_len() }
